@@ -370,7 +370,10 @@ class Engine:
         cls = m.d.get('class') if m.k == 'member' else None
         name = m.d.get('name')
         ftype = m.d.get('ftype') or m.d.get('decltype') or m.d.get('type') or ''
-        ftype = ftype.replace('const ', '').replace('*const', '').replace(' &', '').replace('&', '').replace('*', '').strip()
+        if m.k == 'ref' and m.decl in fr.ainfo:
+            # a reference parameter / local bound to a lock member: the lock is that member
+            cls, name, ftype = fr.ainfo[m.decl]
+        ftype = (ftype or '').replace('const ', '').replace('*const', '').replace(' &', '').replace('&', '').replace('*', '').strip()
         return (p, cls or '', name or '', mode, ftype)
 
     def _transfer(self, fr, B, L, guardvars, root, record):
